@@ -541,6 +541,51 @@ def run(ctx):
                        'end lies inside (before the end of) the last child: the parent no longer covers its children'
                        % (role, unparse(x_)), construct='%s: %s' % (getattr(fq, '_qualname', getattr(fq, 'name', '?')), role))
 
+    # ---- R01u: a node that ends at its token's end leaves the reader there
+    ctx.rule('R01u', 'expression parser: where a node is built with pos_end = <token>.pos_end, the reader stands at that token\'s '
+                     'end when the node is built (last reader movement on the path: the next_token() that read the token, or a '
+                     'move_past_token(token) with the post-space): a reader left in front of the white space that the node '
+                     'already covers makes the next node overlap it', 2)
+    exm = repo.mod('pylatexenc.latexnodes.parsers._expression')
+    pst = exm.functions.get('LatexExpressionParser._parse_single_token')
+    if pst is None:
+        raise AnalysisError('anchor vanished: LatexExpressionParser._parse_single_token')
+    MOVES = ('next_token', 'move_past_token', 'move_to_token', 'move_to_pos_chars', 'next_chars')
+    try:
+        ucs = symex.Walker(is_sink=lambda c_: call_name(c_) in MOVES or (
+            call_name(c_) == 'make_node' and kwarg(c_, 'pos_end') is not None), trace=True).run(pst)
+    except symex.TooManyPaths:
+        ucs = []
+    n_un, seen_u = 0, set()
+    for cs in ucs:
+        if call_name(cs.sub) != 'make_node':
+            continue
+        pe_ = unparse(kwarg(cs.node, 'pos_end'))
+        if not pe_.endswith('.pos_end'):
+            continue
+        tokv = pe_[:-8]
+        tr_ = [(call_name(sub_), sub_) for _n, sub_ in cs.env.get('#trace', ()) if call_name(sub_) in MOVES]
+        last = tr_[-1] if tr_ else None
+        ok = last is not None and (last[0] == 'next_token' or (
+            # recovery: the reader is put where the placeholder token ends (C06 R06b: pos_end == recovery_token_at_pos)
+            last[0] == 'move_to_pos_chars' and last[1].args and unparse(last[1].args[0]).endswith('.recovery_token_at_pos')) or (
+            last[0] == 'move_past_token' and last[1].args and tokv in unparse(last[1].args[0]) and not any(
+                k_.arg == 'fastforward_post_space' and isinstance(k_.value, ast.Constant) and k_.value.value is False
+                for k_ in last[1].keywords)))
+        key_ = (id(cs.node), ok)
+        if key_ in seen_u:
+            continue
+        seen_u.add(key_)
+        n_un += 1
+        ctx.decide('R01u', ok, exm, cs.node, 'node ending at %s built with the reader at that position' % pe_,
+                   'a node with pos_end=%s is built on the path [%s] after the reader was moved by %s: the reader is left in front '
+                   'of white space that the node covers (its pos_end includes the post-space), so the parent ends before its '
+                   'child and the next top-level node overlaps it' % (pe_, ' & '.join(cs.cond_src())[-100:],
+                                                                  short(last[1], 60) if last else 'nothing'),
+                   construct='_parse_single_token: node ending at %s' % pe_)
+    if n_un < 2:
+        ctx.unknown('R01u', exm, pst, 'only %d token-ended nodes found' % n_un, construct='_parse_single_token: token-ended nodes')
+
     # ---- R01t: the text of a char token is the source at its span
     ctx.rule('R01t', 'LatexTokenReader: every token of kind char is built with the source slice of its own span as text '
                      '(`s[P:E]` with pos=P and pos_end=E, `s[P]` with pos_end=P+1, or the text it was handed together with '
